@@ -92,18 +92,26 @@ structure ValidSchedule (jobs : Jobs) (S : List Entry) : Prop where
   mach : ∀ a ∈ S, ∀ b ∈ S, a.key ≠ b.key → jobs.mach a.job a.op = jobs.mach b.job b.op →
     a.fin ≤ b.start ∨ b.fin ≤ a.start
 
-/-- Verified checker for a returned schedule and its reported objective. -/
+/-! Verified checker for a returned schedule and its reported objective, clause by clause. -/
+def chkOnce (S : List Entry) : Bool := decide (S.map Entry.key).Nodup
+def chkKnown (jobs : Jobs) (S : List Entry) : Bool :=
+  S.all fun e => decide (e.op < (jobs.ops e.job).length)
+def chkPresent (jobs : Jobs) (S : List Entry) : Bool :=
+  (List.range jobs.length).all fun j => (List.range (jobs.ops j).length).all fun k =>
+    S.any fun e => e.job == j && e.op == k
+def chkDur (jobs : Jobs) (S : List Entry) : Bool :=
+  S.all fun e => e.fin - e.start == (jobs.dur e.job e.op : Int)
+def chkOrder (S : List Entry) : Bool :=
+  S.all fun a => S.all fun b => !(a.job == b.job && decide (a.op < b.op)) || decide (a.fin ≤ b.start)
+def chkMach (jobs : Jobs) (S : List Entry) : Bool :=
+  S.all fun a => S.all fun b =>
+    !(a.key != b.key && jobs.mach a.job a.op == jobs.mach b.job b.op)
+      || decide (a.fin ≤ b.start) || decide (b.fin ≤ a.start)
+def chkObj (S : List Entry) (obj : Int) : Bool := obj == makespan S
+
 def chkSchedule (jobs : Jobs) (S : List Entry) (obj : Int) : Bool :=
-  decide (S.map Entry.key).Nodup
-  && S.all (fun e => decide (e.op < (jobs.ops e.job).length))
-  && (List.range jobs.length).all (fun j => (List.range (jobs.ops j).length).all fun k =>
-        S.any fun e => e.job == j && e.op == k)
-  && S.all (fun e => e.fin - e.start == (jobs.dur e.job e.op : Int))
-  && S.all (fun a => S.all fun b => !(a.job == b.job && decide (a.op < b.op)) || decide (a.fin ≤ b.start))
-  && S.all (fun a => S.all fun b =>
-        !(a.key != b.key && jobs.mach a.job a.op == jobs.mach b.job b.op)
-          || decide (a.fin ≤ b.start) || decide (b.fin ≤ a.start))
-  && obj == makespan S
+  chkOnce S && chkKnown jobs S && chkPresent jobs S && chkDur jobs S && chkOrder S && chkMach jobs S
+    && chkObj S obj
 
 /-- Refinement checker: the schedule, read in dict insertion order, is exactly what the abstract
 dispatch machine produces for the jobs picked in that order. -/
@@ -185,15 +193,24 @@ structure Inv (P : Prob) (s : VState) : Prop where
   single : ∀ c, 1 ≤ c → c ≤ P.n → P.req c ≤ 1 → ∀ (i j : Nat) (r r' : List Nat), s.routes[i]? = some r →
     s.routes[j]? = some r' → c ∈ r → c ∈ r' → i = j
 
-def chkInv (P : Prob) (s : VState) : Bool :=
+def chkRange (P : Prob) (s : VState) : Bool :=
   s.routes.all (fun r => r.all fun c => decide (1 ≤ c ∧ c ≤ P.n))
   && s.unassigned.all (fun c => decide (1 ≤ c ∧ c ≤ P.n))
-  && decide s.unassigned.Nodup
-  && (List.range' 1 P.n).all (fun c => s.unassigned.contains c != s.routes.any (·.contains c))
-  && s.routes.all (fun r => decide r.Nodup)
-  && (List.range' 1 P.n).all (fun c => decide (P.req c ≤ 1) →
-        (List.range s.routes.length).all fun i => (List.range s.routes.length).all fun j =>
-          ((s.routes.getD i []).contains c && (s.routes.getD j []).contains c) → i == j)
+def chkNodupU (s : VState) : Bool := decide s.unassigned.Nodup
+/-- no customer is lost: unassigned or on a route -/
+def chkNotLost (P : Prob) (s : VState) : Bool :=
+  (List.range' 1 P.n).all fun c => s.unassigned.contains c || s.routes.any (·.contains c)
+/-- no customer is both unassigned and on a route -/
+def chkNotBoth (P : Prob) (s : VState) : Bool :=
+  (List.range' 1 P.n).all fun c => !(s.unassigned.contains c && s.routes.any (·.contains c))
+def chkNodupR (s : VState) : Bool := s.routes.all fun r => decide r.Nodup
+def chkSingle (P : Prob) (s : VState) : Bool :=
+  (List.range' 1 P.n).all fun c => !decide (P.req c ≤ 1) ||
+    (List.range s.routes.length).all fun i => (List.range s.routes.length).all fun j =>
+      !((s.routes.getD i []).contains c && (s.routes.getD j []).contains c) || i == j
+
+def chkInv (P : Prob) (s : VState) : Bool :=
+  chkRange P s && chkNodupU s && chkNotLost P s && chkNotBoth P s && chkNodupR s && chkSingle P s
 
 /-- Python `route.insert(pos, c)` for `pos ≤ len(route)`. -/
 def insAt (r : List Nat) (p c : Nat) : List Nat := r.take p ++ c :: r.drop p
